@@ -1,10 +1,10 @@
 /-
-  Extract family — layout independence, layer 2 (PARTIAL): `compile` commutes with re-positioning.  Proved here:
-  the accessors, `get_expr_end` (`lastLoc`: the one place a location is COMPUTED from a position, start + (0, 1)),
-  `get_indexes_for_target` and the target classification, and from them `CompileComm` for trees made of
-  `Assign`, `Name` and the classes without a visit method.  The other visit methods are not done.
+  Extract family — layout independence, layer 2, foundations: the accessors, `get_expr_end` (`lastLoc`: the one place
+  a location is COMPUTED from a position, start + (0, 1)), `get_first_body_node_loc`, `get_indexes_for_target` and the
+  target classification commute with re-positioning.
 -/
 import SuppModel.Extract.LemmasLayout
+import SuppModel.Extract.LayoutPair
 
 namespace SuppModel.Extract
 open SuppModel.Flow
@@ -83,63 +83,75 @@ theorem np_mapPos {n : Ast} {p : Pos} (h : np n = .ok p) : np (n.mapPos φ) = .o
   · rename_i q hq; injection h with h; subst h; simp [hq]
   · cases h
 
-/-- `ψ` commutes with "+ (0, 1)" at this node's position -/
-def bumpOK (φ ψ : Pos → Pos) (n : Ast) : Bool :=
-  match n.pos? with
-  | some p => decide (ψ (bump p) = bump (φ p))
-  | none => true
-
 mutual
-theorem lastLoc_mapPos : ∀ (n : Ast) (acc : Pos), n.all (bumpOK φ ψ) = true →
-    lastLoc (n.mapPos φ) (ψ acc) = ψ (lastLoc n acc)
-  | .node k p ns vs, acc, h => by
-    simp only [Ast.all, Bool.and_eq_true] at h
-    simp only [Ast.mapPos, lastLoc]
+theorem lastLoc_bump : ∀ (n : Ast) (a : Pos), lastLoc n (bump a) = bump (lastPos n a)
+  | .node k p ns vs, a => by
+    simp only [lastLoc, lastPos]
     cases p with
-    | none => exact lastLocList_mapPos vs acc h.2
-    | some q =>
-      have hb : ψ (bump q) = bump (φ q) := by simpa [bumpOK, Ast.pos?] using h.1
-      simp only [Option.map_some]
-      have := lastLocList_mapPos vs (bump q) h.2
-      rw [hb] at this
-      exact this
-  | .list items, acc, h => by
-    simp only [Ast.all] at h
-    simp only [Ast.mapPos, lastLoc]
-    exact lastLocList_mapPos items acc h
-  | .str _, _, _ => rfl
-  | .int _, _, _ => rfl
-  | .none, _, _ => rfl
-theorem lastLocList_mapPos : ∀ (l : List Ast) (acc : Pos), allList (bumpOK φ ψ) l = true →
-    lastLocList (mapPosList φ l) (ψ acc) = ψ (lastLocList l acc)
-  | [], _, _ => rfl
-  | x :: xs, acc, h => by
-    simp only [allList, Bool.and_eq_true] at h
-    simp only [mapPosList, lastLocList]
-    rw [lastLoc_mapPos x acc h.1]
-    exact lastLocList_mapPos xs _ h.2
+    | none => exact lastLocList_bump vs a
+    | some q => exact lastLocList_bump vs q
+  | .list items, a => by simp only [lastLoc, lastPos]; exact lastLocList_bump items a
+  | .str _, _ => rfl
+  | .int _, _ => rfl
+  | .none, _ => rfl
+theorem lastLocList_bump : ∀ (l : List Ast) (a : Pos), lastLocList l (bump a) = bump (lastPosList l a)
+  | [], _ => rfl
+  | x :: xs, a => by
+    simp only [lastLocList, lastPosList]
+    rw [lastLoc_bump x a]
+    exact lastLocList_bump xs _
 end
 
+mutual
+theorem lastPos_mapPos : ∀ (n : Ast) (a : Pos), lastPos (n.mapPos φ) (φ a) = φ (lastPos n a)
+  | .node k p ns vs, a => by
+    simp only [Ast.mapPos, lastPos]
+    cases p with
+    | none => exact lastPosList_mapPos vs a
+    | some q => exact lastPosList_mapPos vs q
+  | .list items, a => by simp only [Ast.mapPos, lastPos]; exact lastPosList_mapPos items a
+  | .str _, _ => rfl
+  | .int _, _ => rfl
+  | .none, _ => rfl
+theorem lastPosList_mapPos : ∀ (l : List Ast) (a : Pos), lastPosList (mapPosList φ l) (φ a) = φ (lastPosList l a)
+  | [], _ => rfl
+  | x :: xs, a => by
+    simp only [mapPosList, lastPosList]
+    rw [lastPos_mapPos x a]
+    exact lastPosList_mapPos xs _
+end
+
+theorem posQ_pos {n : Ast} {p : Pos} (h : posQ φ ψ n = true) (hp : n.pos? = some p) :
+    ψ p = φ p ∧ ψ (bump (lastPos n p)) = bump (φ (lastPos n p)) := by
+  simp only [posQ, hp, Bool.and_eq_true, decide_eq_true_eq] at h
+  exact h.1
+
+theorem posQ_mix {n : Ast} {dp bp : Pos} (h : posQ φ ψ n = true) (hk : mixKey n = some (dp, bp)) :
+    ψ (dp.1, bp.2) = ((φ dp).1, (φ bp).2) := by
+  simp only [posQ, hk, Bool.and_eq_true, decide_eq_true_eq] at h
+  exact h.2
+
+theorem q_of_all {Q : Ast → Bool} {n : Ast} (hn : n.isNode = true) (h : n.all Q = true) : Q n = true := by
+  cases n with
+  | node k p ns vs => simp only [Ast.all, Bool.and_eq_true] at h; exact h.1
+  | _ => cases hn
+
+theorem np_pos {n : Ast} {p : Pos} (h : np n = .ok p) : n.pos? = some p := by
+  unfold np at h
+  split at h
+  · rename_i q hq; injection h with h; subst h; exact hq
+  · cases h
+
 /-- `get_expr_end` on the other layout is `ψ` of `get_expr_end` -/
-theorem exprEnd_mapPos {n : Ast} {e : Pos} (hb : n.all (bumpOK φ ψ) = true) (hn : n.isNode = true)
-    (h : exprEnd n = .ok e) : exprEnd (n.mapPos φ) = .ok (ψ e) := by
+theorem exprEnd_mapPos {n : Ast} {e : Pos} (hq : posQ φ ψ n = true) (h : exprEnd n = .ok e) :
+    exprEnd (n.mapPos φ) = .ok (ψ e) := by
   simp only [exprEnd, bind_ok_iff, pure_ok_iff] at h
   obtain ⟨p, hp, rfl⟩ := h
-  have hbp : ψ (bump p) = bump (φ p) := by
-    cases n with
-    | node k q ns vs =>
-      simp only [Ast.all, Bool.and_eq_true] at hb
-      have : q = some p := by
-        cases q with
-        | none => simp [np, Ast.pos?] at hp
-        | some q' => simp only [np, Ast.pos?] at hp; injection hp with hp; rw [hp]
-      subst this
-      simpa [bumpOK, Ast.pos?] using hb.1
-    | _ => cases hn
-  have := lastLoc_mapPos (φ := φ) (ψ := ψ) n (bump p) hb
+  have hb := (posQ_pos hq (np_pos hp)).2
   simp only [exprEnd, np_mapPos hp, bind, Except.bind, pure, Except.pure]
-  rw [hbp] at this
-  exact congrArg Except.ok this
+  have e1 : lastLoc n (p.1, p.2 + 1) = bump (lastPos n p) := lastLoc_bump n p
+  have e2 : lastLoc (n.mapPos φ) ((φ p).1, (φ p).2 + 1) = bump (lastPos (n.mapPos φ) (φ p)) := lastLoc_bump _ (φ p)
+  rw [e1, e2, lastPos_mapPos, hb]
 
 end SuppModel.Extract
 
@@ -255,12 +267,12 @@ theorem assignBind_mapP (eend : Pos) (t : Target) :
 theorem generic_mapPos (n : Ast) : generic (n.mapPos φ) = (generic n).map (Instr.mapP φ ψ) := by
   simp [generic, mapPos_children, Instr.mapP]
 
-theorem compileAssign_comm {n : Ast} {prog : Prog} (hb : n.all (bumpOK φ ψ) = true) (h : compileAssign n = .ok prog) :
+theorem compileAssign_comm {n : Ast} {prog : Prog} (hb : n.all (posQ φ ψ) = true) (h : compileAssign n = .ok prog) :
     compileAssign (n.mapPos φ) = .ok (prog.map (Instr.mapP φ ψ)) := by
   simp only [compileAssign, bind_ok_iff, pure_ok_iff] at h
   obtain ⟨value, h1, eend, h2, targets, h3, ts, h4, rfl⟩ := h
   have hsub := getNode_sub h1
-  have h2' := exprEnd_mapPos (φ := φ) (ψ := ψ) (hsub.inside.all _ hb) hsub.node h2
+  have h2' := exprEnd_mapPos (φ := φ) (ψ := ψ) (q_of_all hsub.node (hsub.inside.all _ hb)) h2
   simp only [compileAssign, getNode_mapPos h1, h2', getNodeList_mapPos h3, targetsOfList_mapPos _ _ h4, bind,
     Except.bind, pure, Except.pure]
   congr 1
@@ -329,41 +341,5 @@ theorem compile_generic {n : Ast} (h : specialKinds.contains n.kind = false) : c
   split <;> first
     | rfl
     | (rename_i hk; rw [hk] at h; simp [specialKinds] at h)
-
-/-- the fragment layer 2 is proved for: assignments, names, and every class without a visit method; positions
-    satisfy the "+ (0, 1)" equation, stored locations are in `S` -/
-def fragQ (φ ψ : Pos → Pos) (S : List Pos) (n : Ast) : Bool :=
-  bumpOK φ ψ n && (n.kind == "Assign" || n.kind == "Name" || !specialKinds.contains n.kind) &&
-  (match compile n with
-   | .ok prog => (progLocs prog).all (fun l => S.contains l)
-   | .error _ => true)
-
-theorem compileComm_frag : CompileComm φ ψ S (fragQ φ ψ S) := by
-  intro n prog hn hall hp
-  have hq : fragQ φ ψ S n = true := by
-    cases n with
-    | node k p ns vs => simp only [Ast.all, Bool.and_eq_true] at hall; exact hall.1
-    | _ => cases hn
-  have hb : n.all (bumpOK φ ψ) = true :=
-    all_mono (fun x hx => by simp only [fragQ, Bool.and_eq_true] at hx; exact hx.1.1) n hall
-  simp only [fragQ, Bool.and_eq_true, hp, List.all_eq_true, List.contains_iff_mem] at hq
-  obtain ⟨⟨_, hk⟩, hl⟩ := hq
-  refine ⟨?_, fun l hlm => by simpa using hl l hlm⟩
-  simp only [Bool.or_eq_true, beq_iff_eq, Bool.not_eq_true'] at hk
-  rcases hk with (hk | hk) | hk
-  · have e1 : compile n = compileAssign n := by unfold compile; simp [hk]
-    have e2 : compile (n.mapPos φ) = compileAssign (n.mapPos φ) := by unfold compile; simp [hk]
-    rw [e1] at hp
-    rw [e2]
-    exact compileAssign_comm hb hp
-  · have e1 : compile n = compileName n := by unfold compile; simp [hk]
-    have e2 : compile (n.mapPos φ) = compileName (n.mapPos φ) := by unfold compile; simp [hk]
-    rw [e1] at hp
-    rw [e2]
-    exact compileName_comm hp
-  · rw [compile_generic hk, pure_ok_iff] at hp
-    subst hp
-    rw [compile_generic (by simpa using hk), generic_mapPos (ψ := ψ)]
-    rfl
 
 end SuppModel.Extract
